@@ -69,8 +69,26 @@ func randomMode(r *rand.Rand, root bool) gen.Mode {
 	}
 }
 
+// cancelPlan cancels the request context when the after-th resolver call of
+// one execution starts (resolvers ignore the context, as user code may).
+type cancelPlan struct {
+	after  int64
+	n      int64
+	cancel context.CancelFunc
+}
+type cancelKey struct{}
+
+func cancelHook(ctx context.Context, typ string, id int64, field string, inBatch bool) error {
+	if p, _ := ctx.Value(cancelKey{}).(*cancelPlan); p != nil {
+		if atomic.AddInt64(&p.n, 1) == p.after {
+			p.cancel()
+		}
+	}
+	return nil
+}
+
 func buildConfigs(run *vlib.Run, sd *gen.SchemaDesc, n int) []*config {
-	env := &gen.Env{Pause: pause}
+	env := &gen.Env{Pause: pause, Fail: cancelHook}
 	var out []*config
 	uniform := []gen.Mode{{Kind: gen.MPlain}, {Kind: gen.MBatch}, {Kind: gen.MExpensive}, {Kind: gen.MBatchFallback}}
 	for c := 0; c < n; c++ {
@@ -194,6 +212,9 @@ func TestCheck(t *testing.T) {
 		w := gen.NewWorld(uint64(r.Int63()), 4+r.Intn(12), 3+r.Intn(8))
 		o := opts
 		o.MaxDepth = 3 + r.Intn(4)
+		if r.Intn(3) == 0 {
+			o = gen.MergeHeavy(o)
+		}
 		doc := gen.Generate(r, sd, w, o)
 		text, vars := doc.Text(), doc.VarsJSON()
 		want, err := gen.Eval(sd, doc, w)
@@ -258,6 +279,35 @@ func TestCheck(t *testing.T) {
 				for _, flag := range flags {
 					run.Count("scheduler:"+scheds[s].Name, 1)
 					report(cfg, scheds[s].Name, flag, execute(cfg.schema, scheds[s].New(int64(i)), text, vars, w, flag))
+				}
+			}
+		}
+		// the request context ends while the query executes (resolvers ignore it):
+		// the outcome must be an error or the complete result, never partial data
+		{
+			var nres int64
+			_, _ = gen.EvalTrace(sd, doc, w, func(gen.Resolution) { nres++ })
+			if nres > 0 {
+				cfg := configs[(i+1)%len(configs)]
+				s := (i + 3) % len(scheds)
+				after := 1 + r.Int63n(nres)
+				q, err := graphql.Parse(text, vars)
+				if err == nil {
+					err = graphql.PrepareQuery(context.Background(), cfg.schema.Query, q.SelectionSet)
+				}
+				if err == nil {
+					base := gen.WithUseBatch(gen.WithWorld(context.Background(), w), i%2 == 0)
+					cctx, cancel := context.WithCancel(base)
+					cctx = context.WithValue(cctx, cancelKey{}, &cancelPlan{after: after, cancel: cancel})
+					val, xerr := graphql.NewExecutor(scheds[s].New(int64(i))).Execute(cctx, cfg.schema.Query, nil, q)
+					cancel()
+					run.Count("cancel_mid_execution_runs", 1)
+					if xerr != nil {
+						run.Count("cancel_mid_execution_returned_error", 1)
+					} else if gotC := vlib.Canon(val); gotC != wantC {
+						run.Violation(i, "", map[string]interface{}{"what": "request context cancelled during execution: Execute returned no error and a result that differs from the reference (partial data)",
+							"query": text, "variables": vars, "config": cfg.name, "scheduler": scheds[s].Name, "cancel_at_resolver_call": after, "got": vlib.Trunc(gotC, 2500), "expected": vlib.Trunc(wantC, 2500)})
+					}
 				}
 			}
 		}
